@@ -605,3 +605,101 @@ func (t *fnTrans) nameVisible(blk *ssa.BasicBlock) bool {
 	}
 	return false
 }
+
+// ---- fields the contracts do not know ---------------------------------------------------------
+//
+// A struct annotation classifies the fields that existed when it was written.  A field added
+// later (absent from /verif/spec/fields.json) has no declared discipline; leaving it unchecked
+// would let a new piece of shared state (a scratch buffer reused by two goroutines, a flag read
+// without the lock) through the race sweep.  Such a field takes the discipline of its struct:
+// guarded by the struct's own lock if it has one, else by the lock its other guarded fields
+// use, else immutable after construction.  A new field that respects that discipline is quiet.
+
+const fieldsPath = "/verif/spec/fields.json"
+
+func (g *Gen) snapshotFields() map[string][]string {
+	out := map[string][]string{}
+	for _, p := range g.pkgs {
+		if p.Types == nil {
+			continue
+		}
+		sc := p.Types.Scope()
+		for _, name := range sc.Names() {
+			tn, ok := sc.Lookup(name).(*types.TypeName)
+			if !ok {
+				continue
+			}
+			st, ok := tn.Type().Underlying().(*types.Struct)
+			if !ok {
+				continue
+			}
+			var fs []string
+			for i := 0; i < st.NumFields(); i++ {
+				fs = append(fs, st.Field(i).Name())
+			}
+			out[g.typeKey(tn.Type())] = fs
+		}
+	}
+	return out
+}
+
+func (g *Gen) loadSnapFields() {
+	g.snapFields = nil
+	b, err := os.ReadFile(fieldsPath)
+	if err != nil {
+		return
+	}
+	var m map[string][]string
+	if json.Unmarshal(b, &m) != nil {
+		return
+	}
+	g.snapFields = map[string]map[string]bool{}
+	for k, fs := range m {
+		g.snapFields[k] = map[string]bool{}
+		for _, f := range fs {
+			g.snapFields[k][f] = true
+		}
+	}
+}
+
+// defaultFieldAnn: the discipline a field added after the contracts were written inherits.
+func (g *Gen) defaultFieldAnn(sa *StructAnn, fname string) *fieldAnn {
+	if g.snapFields == nil {
+		return nil
+	}
+	known, ok := g.snapFields[sa.key]
+	if !ok || known[fname] {
+		return nil
+	}
+	if g.newFieldAnn == nil {
+		g.newFieldAnn = map[string]*fieldAnn{}
+	}
+	k := sa.key + "." + fname
+	if fa, ok := g.newFieldAnn[k]; ok {
+		return fa
+	}
+	fa := &fieldAnn{kind: "immutable", reason: "field added after the contracts were written: it takes the discipline of its struct"}
+	// the struct's own lock, if it has exactly one; else the lock most of its guarded fields use
+	use := map[string]int{}
+	for _, f := range sa.fields {
+		if f.kind == "guarded" {
+			use[f.lock]++
+		}
+	}
+	best, bn := "", 0
+	for l, n := range use {
+		if n > bn || (n == bn && l < best) {
+			best, bn = l, n
+		}
+	}
+	if len(sa.locks) == 1 {
+		for l := range sa.locks {
+			best = l
+		}
+	}
+	if best != "" {
+		fa.kind, fa.lock = "guarded", best
+	}
+	g.newFieldAnn[k] = fa
+	return fa
+}
